@@ -66,7 +66,10 @@ Proof.
   cbn [l_types l_quant l_pvs l_reader l_luma l_cb l_cr].
   assert (Hn0 : 0 <= zlength types) by (unfold zlength; lia).
   rewrite mul_c_ok by (cbn [ilo ihi]; nia). cbn [bind].
-  destruct (mpl * mbh <=? zlength types) eqn:Ed; [reflexivity|].
+  (* the completion test, in whatever form the source writes it (`>=` then break, or the negated `while` condition) *)
+  destruct (mpl * mbh <=? zlength types) eqn:Ed;
+    try (match goal with |- bind (if ?c then _ else _) _ = _ => first [ replace c with true by lia | replace c with false by lia ] end);
+    [reflexivity|].
   set (n := zlength types) in *.
   assert (E0 : (mpl =? 0) = false) by lia.
   assert (Hcol : 0 <= Z.rem n mpl < mpl) by (apply Z.rem_bound_pos; lia).
